@@ -144,6 +144,8 @@ def gen_case(rng, tier):
             op["items"] = [rng.randrange(n) for _ in range(rng.randint(1, 3))]
             if kind == "lc":
                 op["coeffs"] = [rng.choice((1.0, -1.0, 0.5, 2.0, 0.0, -3.0)) for _ in op["items"]]
+            if rng.random() < 0.15:
+                op["inside_loop"] = True
             if rng.random() < 0.5:
                 op["grid"] = {"start": grid["start"] - rng.choice((0, 1, 2)) * unit,
                               "stop": grid["stop"] + rng.choice((0, 1, 3)) * unit,
@@ -390,6 +392,7 @@ def run_case(case, sched):
     uses_result = 0
     rejected = 0
     lazy_triggers = 0
+    loop_seen = [None]
     n0 = len(objs)
 
     def push(o, m):
@@ -539,12 +542,26 @@ def run_case(case, sched):
                         fn = lambda: tools.lc_approx([objs[i] for i in items], coeffs, **kw)   # noqa: E731
                     else:
                         fn = lambda: tools.average_approx([objs[i] for i in items], **kw)       # noqa: E731
+                if op.get("inside_loop"):
+                    # the caller is in the middle of iterating the first operand (`for depth_values in P:`) when it
+                    # makes the call, and carries on iterating afterwards: the loop must still see every depth
+                    inner_, P_, seen_ = fn, objs[items[0]], loop_seen
+
+                    def fn(inner_=inner_, P_=P_, seen_=seen_):
+                        res_, k_ = None, 0
+                        for _row in P_:
+                            if k_ == 0:
+                                res_ = inner_()
+                            k_ += 1
+                        seen_[0] = (k_, len(res_vals[0]))
+                        return res_
             else:
                 raise InvalidCase("op kind")
         except InvalidCase:
             raise
 
         # ---- execute
+        loop_seen[0] = None
         raised = None
         out = None
         try:
@@ -563,6 +580,10 @@ def run_case(case, sched):
                 raise Violation("valid-operation-succeeds", site, lz + "/" + type(raised).__name__,
                                 "%s raised %s: %s" % (site, type(raised).__name__, str(raised)[:300]), opi)
             ok_ops += 1
+            if kind in ("snap", "lc", "avg") and op.get("inside_loop") and loop_seen[0] is not None and loop_seen[0][0] != loop_seen[0][1]:
+                raise Violation("operands-untouched", site, "iteration-in-progress",
+                                "a loop over the first operand that was in progress during the call saw %d of its %d depths"
+                                % loop_seen[0], opi)
             res_model = want
             allm = [m for m in models if m is not None]
             t = probes_for(allm + ([want] if not isinstance(want, list) and want.kind == "exact" else []))
